@@ -622,36 +622,41 @@ theorem appendRenumber_inv {s : St} (h : Inv s) (o : ObjId) (k : Int) : Inv (app
   · exact h
   · rename_i hno
     simp only []
-    -- s0: the object is linked first
-    have i0 : Inv { s with link := fun x => if x = o ∧ s.owned = true then true else s.link x } := by
-      refine ⟨h.nodup, h.cache, ?_⟩
-      intro how x hx
-      show (if x = o ∧ s.owned = true then true else s.link x) = true
-      split
-      · rfl
-      · exact h.linked how x hx
-    generalize hs0 : ({ s with link := fun x => if x = o ∧ s.owned = true then true else s.link x } : St) = s0 at i0
-    have hobj0 : s0.objs = s.objs := by rw [← hs0]
-    have i1 := append_inv i0 o
+    -- the number is looked for first: only the cache can change
+    have i0 : Inv (checkNumber s (s.num o)).1 :=
+      h.of_core (checkNumber_core _ _) (checkNumber_cacheOK _ _ h.cache)
+    have c0 := checkNumber_core s (s.num o)
     split
-    · exact i1
-    · rename_i hnok
-      have c1 := append_err_core hnok
-      have i2 : Inv (requestNumber (append s0 o).1 (s0.num o) k).1 :=
-        i1.of_core (requestNumber_core _ _ _) (requestNumber_cacheOK _ _ _ i1.cache)
-      have hs0num : s0.num = s.num := by rw [← hs0]
-      rw [← hs0num]
+    · have i1 := append_inv i0 o
+      split
+      · exact i1
+      · exact i1
+    · have i2 : Inv (requestNumber (checkNumber s (s.num o)).1 (s.num o) k).1 :=
+        i0.of_core (requestNumber_core _ _ _) (requestNumber_cacheOK _ _ _ i0.cache)
+      have c2 := requestNumber_core (checkNumber s (s.num o)).1 (s.num o) k
       split
       · rename_i n _
-        have ho2 : o ∉ (requestNumber (append s0 o).1 (s0.num o) k).1.objs := by
-          rw [(requestNumber_core _ _ _).objs, c1.objs, hobj0]; exact hno
-        have i3 := setNumber_inv i2 o n (fun hm => absurd hm ho2)
         split
-        · have i4 := append_inv i3 o
+        · exact i2
+        · -- the object is linked, renumbered, appended
+          have ho2 : o ∉ (requestNumber (checkNumber s (s.num o)).1 (s.num o) k).1.objs := by
+            rw [c2.objs, c0.objs]; exact hno
+          have i3 : Inv { (requestNumber (checkNumber s (s.num o)).1 (s.num o) k).1 with
+              link := fun x => if x = o ∧ s.owned = true then true
+                else (requestNumber (checkNumber s (s.num o)).1 (s.num o) k).1.link x } := by
+            refine ⟨i2.nodup, i2.cache, ?_⟩
+            intro how x hx
+            show (if x = o ∧ s.owned = true then true else _) = true
+            split
+            · rfl
+            · exact i2.linked how x hx
+          have i4 := setNumber_inv i3 o n (fun hm => absurd hm ho2)
           split
+          · have i5 := append_inv i4 o
+            split
+            · exact i5
+            · exact i5
           · exact i4
-          · exact i4
-        · exact i3
       · exact i2
 
 /-! ### extend / += -/
